@@ -20,6 +20,8 @@
 //!   c01.xref             classic cross-reference tables, well-formed and mutated (huge counts, missing entries),
 //!                        and soup, through `read_xref_and_trailer_at`
 //!
+//!   c01.registry         the generated schemas satisfy the decidable hypothesis of `typed_registry_total` (driver-evaluated)
+//!
 //! Model side: `c03.*` requests are answered by Drv/C03.lean (same models), `c01.*` by Drv/C01.lean.
 //! Oracle `c01.entry`: every call of a real function made for these streams; a panic is a failure of the
 //! property itself (signature `panic@<entry point>`), a call that does not come back within 10 s a `hang@…`.
@@ -737,10 +739,24 @@ fn xref_stream(run: &mut Runner, seed: u64, n: u64) -> Stream {
     st
 }
 
+/// the decidable hypothesis of `Props/C01.typed_registry_total` (every `default = ".."` of the generated schemas is of a
+/// form the interpreter evaluates; `Page` / `PageTree` exist), evaluated by the compiled driver on the schemas the
+/// translator has just regenerated from the source: a translator obligation, reported like a broken correspondence
+fn registry_stream(driver: &Driver) -> Stream {
+    let mut st = Stream::new("c01.registry", true);
+    st.exhaustive = true;
+    let rq = "c01.registry".to_string();
+    let m = driver.ask(&[rq.clone()]).pop().unwrap_or_default();
+    for part in m.split(' ').skip(1) { st.count(part); }
+    st.case(&rq, &m, if m.starts_with("ok ") { &m } else { "ok" }, true);
+    st
+}
+
 pub fn streams(driver: &Driver, seed: u64, thorough: bool) -> (Vec<Stream>, Oracle) {
     let mut run = Runner::new(driver, seed);
     let k: u64 = if thorough { 40 } else { 1 };
     let mut out = vec![];
+    out.push(registry_stream(driver));
     out.push(exhaustive_stream(&mut run, thorough));
     out.extend(random_streams(&mut run, seed, 40_000 * k));
     out.push(str_stream(&mut run, seed, 20_000 * k));
